@@ -2,6 +2,6 @@ SPECIFICATION Spec
 CONSTANTS
   Alphabet = {"o", "t", "r", "n", "m2", "m3", "m4"}
   MaxLen = 5
-  MaxMarks = 2
+  MaxMarks = 0
 INVARIANTS MachineIsPosAfter Compositional ColumnShortcut RunForm RoundTrip StrictlyMonotoneOffsets UnionsWellFormed SliceMatches
 PROPERTY Monotone
